@@ -14,7 +14,7 @@ from __future__ import annotations
 
 import ast
 
-from engine.cfg import call_name
+from engine.cfg import call_name, cfg_of
 from engine.errors import AnalysisError
 from engine.raises import _is_subclass, enclosing_catchers, raise_sites
 from engine.repo import walk_no_nested
@@ -102,9 +102,27 @@ def run(ctx):  # noqa: C901, PLR0912, PLR0915
                witness={'raise_sites': [f'{m}: {w}' for m in ('from_scope_string', '_scope_string_matches')
                                         for _e, _n, w in raise_sites(repo.resolve_method(LOC, m))]})
     # scopes may be absent
-    sm = repo.method(LOC, '_service_matches')
-    ok = 'service.scopes is None' in xsrc(sm)
-    ctx.ob('C16.R1', 'service without scopes', ok, '_service_matches tolerates services without scopes', fi=sm)
+    # every read of <service>.scopes.text on the filter chain is guarded by "<service>.scopes is not None" (branch facts, or
+    # an earlier operand of the same and-chain) - wherever the maintainer keeps that code
+    from engine.cfg import Facts, inline_facts
+    n_sc, ok = 0, True
+    sm = None
+    for m in ('filter_services_inside', '_service_matches'):
+        f = repo.resolve_method(LOC, m)
+        if f is None:
+            continue
+        gm = cfg_of(f)
+        for hn in gm.real_nodes():
+            for a in hn.walk():
+                if isinstance(a, ast.Attribute) and a.attr == 'text' and isinstance(a.value, ast.Attribute) and \
+                        a.value.attr == 'scopes':
+                    n_sc += 1
+                    sm = f
+                    facts = Facts(list(gm.facts_at(hn)) + inline_facts(a), gm.facts_at(hn).resolved)
+                    owner = unparse(a.value)
+                    ok = ok and ((f'{owner} is None', False) in facts or (owner, True) in facts)
+    ctx.ob('C16.R1', 'service without scopes', ok and n_sc >= 1,
+           'a service without scopes is skipped before its scope list is read', fi=sm or repo.method(LOC, 'filter_services_inside'))
 
     # ------------------------------------------------------------------ R2
     ue, _ = repo.class_attr(LOC, 'url_elements')
@@ -157,7 +175,14 @@ def run(ctx):  # noqa: C901, PLR0912, PLR0915
     # from_scope_string reads query keys by the element names
     fs = repo.method(LOC, 'from_scope_string')
     src = xsrc(fs)
-    ctx.ob('C16.R2', 'reader keys', 'query_dict.get(attr_name)' in src and 'cls(**arguments_dict)' in src,
+    # data dependence: what is handed to the constructor as **kwargs is read from the parsed query by the names in url_elements
+    from engine.deps import Deps
+    dfs = Deps(fs.node)
+    ctor = [c for c in calls_in(fs.node) if isinstance(c.func, ast.Name) and c.func.id == 'cls'
+            and any(k.arg is None for k in c.keywords)]
+    ok_keys = len(ctor) == 1 and all(
+        {'call:parse_qsl', 'attr:url_elements', 'call:get'} <= dfs.sources(k.value) for k in ctor[0].keywords if k.arg is None)
+    ctx.ob('C16.R2', 'reader keys', ok_keys,
            'from_scope_string fills the constructor arguments from the query by element name', fi=fs)
 
     # ------------------------------------------------------------------ R3
@@ -194,7 +219,13 @@ def run(ctx):  # noqa: C901, PLR0912, PLR0915
     ctx.ob('C16.R3', 'provider query codec', 'urlencode' in wq,
            'the provider builds the location query with urlencode (inverse of parse_qsl)', fi=qf)
     # scheme comparison is case-insensitive on the foreign side only
-    ctx.ob('C16.R3', 'scheme check', 'src.scheme.lower() != cls.scheme' in src,
+    gfs = cfg_of(fs)
+    rz = [n for n in gfs.nodes if n.kind == 'raisestmt' and 'UrlSchemeError' in n.text()]
+    from engine.cfg import canon_lit
+    want = canon_lit('urlsplit(X).scheme.lower() == cls.scheme', False)
+    ok_scheme = bool(rz) and all(
+        any((canon_lit(t.replace('$1', 'X'), p) == want) for t, p in gfs.facts_symbolic(n)) for n in rz)
+    ctx.ob('C16.R3', 'scheme check', ok_scheme,
            'from_scope_string compares the lower-cased scheme with the constant scheme', fi=fs)
 
     # ------------------------------------------------------------------ R4
